@@ -3,6 +3,7 @@ package props
 import (
 	"bytes"
 	"fmt"
+	"strings"
 	"time"
 
 	"github.com/IBM/fluent-forward-go/fluent/client"
@@ -222,10 +223,34 @@ func c02Helpers(c *core.Ctx, i int) {
 		{"SendCompressedFromBytes", func(cl *client.Client) error { return cl.SendCompressedFromBytes(string(tag), raw) },
 			func(int) string { return fmt.Sprintf("{size=-,chunk=,comp=%s}", hx([]byte("gzip"))) }},
 	}
+	// with acknowledgements required the helper adds a chunk id to the options and nothing else changes: the mode
+	// and the other option keys stay what the helper's name says (the peer of this client never answers: the call
+	// fails after the write, the bytes it wrote are judged)
+	for _, pc := range cases {
+		cl, f := liveClient(true)
+		cl.Timeout = 20 * time.Millisecond
+		_ = pc.send(cl)
+		wire := f.Conns[0].Accepted()
+		c.Eval()
+		c.Hist("helper with acks " + pc.name)
+		var d protocol.PackedForwardMessage
+		if _, err := d.UnmarshalMsg(wire); err != nil || d.Options == nil || d.Options.Chunk == "" {
+			c.Violation("judge-go", "c02-helper-mode", pc.name+" with acks required: wire bytes are not a PackedForward message carrying a chunk id", map[string]string{"wire": trunc(hx(wire), 300)})
+			continue
+		}
+		opt := strings.Replace(pc.opt(len(d.EventStream)), "chunk=", "chunk="+hx([]byte(d.Options.Chunk)), 1)
+		if opt == "none" {
+			opt = "{size=-,chunk=" + hx([]byte(d.Options.Chunk)) + ",comp=}"
+		}
+		c.Judge("c02-helper-mode", "judge_wire", []string{"packed", hx(wire), fmt.Sprintf("packed(tag=%s,stream=%s,opt=%s)", hx(tag), hx(d.EventStream), opt)}, pc.name+" with acks required: PackedForward mode, documented options plus the chunk id")
+	}
 	for _, pc := range cases {
 		cl, f := liveClient(false)
 		if i%2 == 1 {
 			failedEncode(cl)
+			// a packing call that fails part-way through its list, before the helper packs its own
+			_, _ = protocol.NewPackedForwardMessage("bad", protocol.EntryList{{Timestamp: protocol.EventTimeNow(), Record: map[string]interface{}{"a": int64(1)}},
+				{Timestamp: protocol.EventTimeNow(), Record: map[string]interface{}{"k": make(chan int)}}})
 		}
 		err := pc.send(cl)
 		wire := f.Conns[0].Accepted()
